@@ -14,7 +14,12 @@ import subprocess
 import common
 from common import Check, Infra, validate_chunks, read_record, workdir, tlc_must_pass, tla_string, log
 
-TIERS = {"quick": dict(scheds=[(2, 5), (3, 3)], tuples=6, pairs=30), "thorough": dict(scheds=[(2, 7), (3, 4), (4, 2)], tuples=24, pairs=60)}
+TIERS = {"quick": dict(scheds=[(2, 5), (3, 3)], tuples=6, pairs=30, poolstep=8, poolworkers=6),
+         "thorough": dict(scheds=[(2, 7), (3, 4), (4, 2)], tuples=24, pairs=60, poolstep=1, poolworkers=8)}
+# one input per lexical mechanism (escapes of every kind, raw / bytes / triple-quoted literals, numbers, quoted identifiers, parameters, comments)
+LEXICAL = [("expr", t) for t in (r'"\u00e9\U0001F600\x41\101\n"', r"b'\xff\377\a'", r"r'\u00e9'", r"rb'''a\'b'''", r'"" "a\u0041b"', "0x1F + 1.5e10 - .5E-3", r"`a\u00e9b`.`c`",
+                                 "@p + @@sys", "a /* c */ + -- d\n b # e\n")]
+
 BROKEN = [("type", "INT64."), ("type", "ARRAY<INT64"), ("query", "SELECT 1 AS s ."), ("query", "SELECT * FROM t LIMIT @n."), ("expr", "a."), ("expr", "f(x)."), ("expr", "(1 +"),
           ("statement", "SELECT"), ("ddl", "CREATE TABLE t (a INT64"), ("dml", "INSERT INTO t"), ("expr", "CAST(a AS ARRAY<STRUCT<x INT64, y STRING>>)"), ("type", "STRUCT<a ARRAY<DATE>>"),
           ("expr", "a.b.c[OFFSET(1)].d"), ("query", "SELECT a.1, b.all FROM t"), ("statement", "SELECT 1; \x00"), ("expr", "1a"), ("query", "SELECT 'abc"), ("type", "DATE"), ("type", "DATE")]
@@ -64,6 +69,55 @@ def run(prop, tier):
     else:
         files.append(seq)
     log("sequential phase: %d histories" % n)
+    # whole-pool phase: every upstream test input, the broken and lexical inputs and single-fault mutants (Faults.tla),
+    # each called by every worker without synchronisation
+    import fam_parser
+    pwd = os.path.join(wd, "tokfaults")
+    os.makedirs(pwd, exist_ok=True)
+    seeds, nseeds = fam_parser.make_seeds(pwd)
+    faults = fam_parser.gen_faults(chk, tier, pwd, seeds, nseeds)
+    big = os.path.join(wd, "bigpool.ndjson")
+    nbig = 0
+    with open(big, "w") as out:
+        for d, t in BROKEN + LEXICAL:
+            out.write(json.dumps({"dir": d, "buf": list(t.encode("latin-1"))}) + "\n")
+            nbig += 1
+        for l in open(os.path.join(common.VERIF, "corpus", "testdata_inputs.ndjson")):
+            r = json.loads(l)
+            out.write(json.dumps({"dir": r["dir"], "buf": list(r["text"].encode("utf-8"))}) + "\n")
+            nbig += 1
+        for i, l in enumerate(open(faults)):
+            if i % cfg["poolstep"] == 0:
+                out.write(l if l.endswith("\n") else l + "\n")
+                nbig += 1
+    ph = os.path.join(wd, "hist-pool.0.ndjson")
+    n, race = run_sched(["-pool", big, "-out", ph, "-freepool", cfg["poolworkers"]], wd, "pool")
+    if race:
+        races.append(({"phase": "whole-pool"}, race))
+    else:
+        files.append(ph)
+    # stress phase: long statement lists made of copies of every upstream / lexical input, workers released together
+    sp = os.path.join(wd, "stresspool.ndjson")
+    nsp = 0
+    with open(sp, "w") as out:
+        for d, t in LEXICAL:
+            out.write(json.dumps({"dir": d, "buf": list(t.encode("latin-1"))}) + "\n")
+            nsp += 1
+        for i, l in enumerate(open(os.path.join(common.VERIF, "corpus", "testdata_inputs.ndjson"))):
+            if tier == "thorough" or i % 2 == 0:
+                r = json.loads(l)
+                out.write(json.dumps({"dir": r["dir"], "buf": list(r["text"].encode("utf-8"))}) + "\n")
+                nsp += 1
+    sh = os.path.join(wd, "hist-stress.0.ndjson")
+    n, race = run_sched(["-pool", sp, "-out", sh, "-stress", cfg["poolworkers"]], wd, "stress")
+    if race:
+        races.append(({"phase": "stress"}, race))
+    else:
+        files.append(sh)
+    chk.notes["stress"] = {"inputs": nsp, "rounds": 2, "workers": cfg["poolworkers"]}
+    log("stress phase: %d histories" % n)
+    chk.notes["whole_pool"] = {"calls": nbig, "workers": cfg["poolworkers"]}
+    log("whole-pool phase: %d calls x %d workers" % (nbig, cfg["poolworkers"]))
     # schedules
     for (k, g) in cfg["scheds"]:
         out = os.path.join(wd, "scheds-%d-%d.ndjson" % (k, g))
@@ -101,7 +155,9 @@ def run(prop, tier):
     chk.cov["exhaustive"] = True
     chk.cov["rule"] = ("histories: (i) every interleaving (TLC, Sched.tla) of K workers x G token-fetch gates, replayed with the hook as scheduler gate on several input tuples in fresh "
                        "race-detector processes, followed by the same calls sequentially and by ungated concurrent calls through the package helpers; (ii) a sequential process: baseline "
-                       "pass, ordered pairs, repeats, SplitRawStatements, kept results digested again; one TLC record per history")
+                       "pass, ordered pairs, repeats, SplitRawStatements, kept results digested again; (iii) whole-pool phase: every upstream test input, broken and lexical inputs and "
+                       "single-fault mutants (Faults.tla), each called once by every one of N unsynchronised workers in one race-detector process; (iv) stress phase: for every upstream and lexical "
+                       "input a statement list of up to 300 copies parsed by N workers released together (same input, then neighbouring inputs); one TLC record per history")
     if bad:
         rec = bad[0][1]
         chk.sample({"history": rec["kind"], "calls": [(c["entry"], c["input"][:40], c["res"]) for c in rec["calls"][:4]]})
@@ -122,6 +178,10 @@ def run(prop, tier):
             key = tuple((c["entry"], c["input"]) for c in rec["calls"])
             if rec["kind"] in ("sequential", "kept") and key not in again:
                 continue
+            if rec["kind"] == "stress":
+                pass
+            if rec["kind"] == "pool" and not pool_again(rec, wd):
+                continue
             differing = [c for c in rec["calls"] if any(d["args"] == c["args"] and d["res"] != c["res"] for d in rec["calls"])] or [c for c in rec["calls"] if c["shared"]]
             c = differing[0] if differing else rec["calls"][0]
             chk.violation({"input": c["input"], "entry": c["entry"], "kind": "C18-impure-" + rec["kind"],
@@ -133,6 +193,22 @@ def run(prop, tier):
     chk.assumptions = ["'without data races' is observed by Go's race detector while TLC-generated schedules are replayed (not a TLC verdict)",
                        "gate points = token fetches (hook TokBegin); gated workers build their Parser by hand like parse_helpers.go does"]
     return chk.finish()
+
+
+def pool_again(rec, wd):
+    """a fresh process repeats the call of a rejected whole-pool history"""
+    c = rec["calls"][0]
+    d = {"ParseDDL": "ddl", "ParseDML": "dml", "ParseQuery": "query", "ParseExpr": "expr", "ParseType": "type"}.get(c["entry"], "statement")
+    one = os.path.join(wd, "pool-again.ndjson")
+    with open(one, "w") as fh:
+        for _ in range(4):
+            fh.write(json.dumps({"dir": d, "text": c["input"]}) + "\n")
+    h = os.path.join(wd, "pool-again-hist.0.ndjson")
+    n, race = run_sched(["-pool", one, "-out", h, "-freepool", 4], wd, "pool-again")
+    if race:
+        return True
+    cnt, rejects, _, _ = validate_chunks("PureTrace", [], h[:-len(".0.ndjson")], 1, os.path.join(wd, "v-pool-again"), heap="3g")
+    return bool(rejects)
 
 
 def replay_case(case):
